@@ -12,6 +12,7 @@
   the decoder is modelled for C07) and `c12_bounded_state` (needs the connection automata of C05/C10).
 -/
 import LtVerif.Model.Arith
+import LtVerif.Model.ArithRange
 import LtVerif.Model.H1Parse
 import LtVerif.Proofs.Arith
 namespace LtVerif.C12
